@@ -83,6 +83,11 @@ def typeof_axiom(v):
 # ---------------------------------------------------------------------------------------------
 # symbolic value wrappers
 # ---------------------------------------------------------------------------------------------
+class HeapRef(object):
+    """base class of engine heap objects (identity = oid_term())"""
+    __slots__ = ()
+
+
 class Sym(object):
     __slots__ = ("z",)
     kind = "?"
